@@ -18,6 +18,7 @@ Oracle, per connection and direction, all from the statement:
     the bytes its socket received on that connection (each byte in exactly one
     packet, in order).
 """
+import time as time_mod
 import itertools
 
 from vf.core import exc_key, Inconclusive
@@ -125,6 +126,20 @@ class Net(object):
         data = body(self.pid, n)
         self.server.transmit(packeting.Packet(stack=self.server, packed=data), ca)
         self.to_client[i].append(data)
+
+    def broadcast(self, n, again):
+        """one Packet object queued for every connected client (and, with `again`, a second time for the first of them)"""
+        from ioflo.aio.proto import packeting
+        targets = [i for i in range(len(self.clients)) if self.ca(i) is not None]
+        if not targets:
+            return 0
+        self.pid += 1
+        data = body(self.pid, n)
+        pkt = packeting.Packet(stack=self.server, packed=data)
+        for i in targets + (targets[:1] if again else []):
+            self.server.transmit(pkt, self.ca(i))
+            self.to_client[i].append(data)
+        return len(targets) + (1 if again else 0)
 
     # --- what the monitors read
     def views(self, i):
@@ -236,6 +251,17 @@ def loopback_case(ctx, rng, idx):
     for i in range(nclients):
         loop.add("C%d.transmit" % i, mk_up(i), 4)
         loop.add("S.transmit->C%d" % i, mk_dn(i), 4)
+    nbroad = [rng.choice((0, 1, 2, 3))]
+
+    def broadcast():
+        if nbroad[0] > 0:
+            nbroad[0] -= 1
+            n = rng.randint(20000, 300000) if rng.random() < 0.6 else size()
+            sizes.append(n)
+            k = net.broadcast(n, again=rng.random() < 0.5)
+            if k > 1:
+                ctx.hit("same_packet_object_queued_more_than_once")
+    loop.add("S.transmit same packet to every client", broadcast, 2)
 
     nontrivial = False
     try:
@@ -289,7 +315,28 @@ def loopback_case(ctx, rng, idx):
                                 max_rounds=200 + total // 1024)
             ctx.event(loop.calls)
             desc["drain_rounds"] = rounds
-            check_net(ctx, net, wit, final=True)
+            ok_final = check_net(ctx, net, wit, final=True)
+            if ok_final and rng.random() < 0.5:
+                # farewell: some clients send their last packets and close at once; the server stack is serviced only
+                # afterwards, so it meets the last bytes and the end of the connection in the same pass
+                leaving = [i for i in range(nclients) if rng.random() < 0.7] or [0]
+                for i in leaving:
+                    for _ in range(rng.randint(1, 3)):
+                        net.queue_up(i, rng.randint(1, 40))
+                    for _ in range(6):
+                        net.clients[i].serviceTxPkts()
+                    if not net.clients[i].txbs and not net.clients[i].txPkts:
+                        net.clients[i].close()
+                        ctx.hit("client_closed_right_after_its_last_packets")
+                desc["left"] = leaving
+                for _ in range(12):
+                    loop.call("S.serviceAll", s.serviceAll)
+                    time_mod.sleep(0.0005)
+                for i in leaving:
+                    up_q, up_wire, up_pkts, dn_q, dn_wire, dn_pkts = net.views(i)
+                    ctx.check(up_wire == up_q and up_pkts == up_wire, "TcpServerStack/rx/last-bytes-before-close-not-in-a-packet",
+                              "bytes a client sent right before closing were received but not delivered in a received packet",
+                              lambda i=i: dict(wit(), client=i, **cmp_wit("queued", up_q, "packets", up_pkts)))
             nontrivial = all(net.to_server[i] and net.to_client[i] for i in range(nclients)) and \
                 (partial["client"] + partial["server"] > 0)
             if partial["client"]:
@@ -494,3 +541,5 @@ def run(ctx):
     ctx.floor("double_client_partial_sends", ctx.pick(2000, 10000))
     ctx.floor("double_server_partial_sends", ctx.pick(500, 2500))
     ctx.floor("distinct_nontrivial", ctx.pick(2000, 10000))
+    ctx.floor("same_packet_object_queued_more_than_once", ctx.pick(20, 600))
+    ctx.floor("client_closed_right_after_its_last_packets", ctx.pick(20, 600))
